@@ -57,7 +57,7 @@ def layout(rng):
 
 def gen(rng, tier):
     cases = []
-    n = 60 if tier == "quick" else 1500
+    n = 120 if tier == "quick" else 1500
     for _ in range(n):
         doc = layout(rng)
         pkts = []
@@ -70,7 +70,7 @@ def gen(rng, tier):
         for bad in (True, False):
             cases.append({"doc": doc, "opts": dict(genrun.DEFAULT_OPTS, parse_bad_pkts=bad), "packets": [p.hex() for p in pkts]})
     # the whole-tree generator of C05, with wrong-length packets
-    for _ in range(8 if tier == "quick" else 200):
+    for _ in range(20 if tier == "quick" else 200):
         doc = defgen.rnd_definition(rng)
         dobj = defgen.try_build(doc)
         pkts = []
